@@ -82,6 +82,7 @@ func vNote(s string)               { fmt.Printf("VERIF-NOTE: %q\n", s) }
 func vIsSym(x any) bool            { return false }
 func vNative() bool                { return true }
 func vHeld() int                   { return 0 }
+func vMapPad(m any, n int)         {}
 func vSyncMapPut(m *sync.Map, k, v any) bool { _, loaded := m.LoadOrStore(k, v); return !loaded }
 func vHang(what string)            { panic("VERIF: hang: " + what) }
 func vCrash()                      { panic(vrtCrashed{}) }
